@@ -3,9 +3,19 @@ import CircusProofs.Core.KStep
 import CircusProofs.Core.PresAttr
 /-!
 Generic preservation: every function of the core model preserves any invariant `I` that is
-preserved by the named state writers (`Leaf I`) and by a handful of composite operations that
-deal with the exclusive slot and the watcher directory (`Spec I`).  Proved once here; each
-invariant then only supplies its `Spec`.
+preserved by the named state writers and by a handful of composite operations.  Proved once here;
+each invariant then only supplies its structure.
+
+Two chains of obligations:
+* the weak one — `LeafR` (writers that are sound anywhere) ⊂ `SpecCoreR` (+ the exclusive slot,
+  top-level futures, and the three guarded places `spawnProcess`, `stopCore`, `guardedStop`) ⊂
+  `SpecMR` (+ replies) ⊂ `SpecR` (+ the event loop: `settleStep`, `stopController`).  All composition
+  theorems are proved over it: `exec_presR`, `validateExecute_presR`, `handleMessage_presR`,
+  `stepOp_presR` (no socket is closed up to here), `stepM_presR`, `run_presR`.
+* the full one — `Leaf` ⊂ `SpecCore` ⊂ `Spec`: every writer anywhere (`setStatus` with any status,
+  `spawnAdopt`, `setClosed`).  It converts to the weak one (`Leaf.toLeafR`, `SpecCore.toSpecCoreR`,
+  `Spec.toSpecMR`, `Spec.toSpecR`); the theorems with the old names (`exec_pres … run_pres`) are
+  the weak ones composed with the conversion.
 -/
 namespace Circus.Core
 
@@ -22,6 +32,100 @@ structure LeafW (I : State → Prop) : Prop extends LeafK I where
   setObjStopping : ∀ p b, Pres I (setObjStopping p b)
   setRc : ∀ p rc, Pres I (setRc p rc)
   markBlocked : Pres I markBlocked
+
+/-! ### the weak chain: what the composition proofs really need
+
+`LeafR` is `Leaf` without the writers that are only sound in a context: `setStatus u .stopped`
+(written only once the `processes` dict is empty), `spawnAdopt` (called only for a watcher that is
+not stopped) and `setClosed` (only the event loop closes the sockets).  The places that use them
+are obligations of their own: `spawnProcess`, `stopCore`, `guardedStop` in `SpecCoreR`,
+`stopController` in `SpecR`.  The old structures (`Leaf`, `SpecCore`, `Spec`, below) convert to the
+weak ones, so an invariant preserved by every writer needs nothing new. -/
+
+/-- `Watcher._stop` once the workers are gone, up to the status write: reap what is left, publish
+    `stop`, status `stopped` (`stopAfterKill = stopCore; after_stop hook; deliver`) -/
+def stopCore (u : Nat) : M Unit := do
+  reapProcesses u
+  notify u "stop" none
+  setStatus u .stopped
+
+/-- `spawn_processes` of an on-demand watcher without a pending connection: stopped, but only once
+    no worker is left -/
+def guardedStop (u : Nat) : M Unit := do
+  let w0 ← getW u
+  if w0.pids.isEmpty then setStatus u .stopped
+
+theorem stopAfterKill_eq (rec : Rec) (u : Nat) (c : Bool) (wt : Waiter) :
+    stopAfterKill rec u c wt = (do stopCore u; let _ ← callHook u "after_stop"; deliver rec wt .unit) := rfl
+
+theorem spawnProcesses_eq (rec : Rec) (u : Nat) (wt : Waiter) :
+    spawnProcesses rec u wt = (do
+      let pend ← pendingSocketEvent u
+      if pend then do
+        guardedStop u
+        deliver rec wt .unit
+      else
+      let w ← getW u
+      let n := w.np - w.pids.length
+      if n ≤ 0 then deliver rec wt .unit else spawnLoop rec u n.toNat wt) := by
+  funext s
+  unfold spawnProcesses guardedStop
+  simp only [bind]
+  by_cases hp : (pendingSocketEvent u s).fst = true
+  · erw [if_pos hp, if_pos hp]
+    simp only [ite_run]
+    by_cases he : (getW u (pendingSocketEvent u s).snd).fst.pids.isEmpty = true
+    · erw [if_pos he, if_pos he]
+    · erw [if_neg he, if_neg he]; rfl
+  · erw [if_neg hp, if_neg hp]
+
+/-- writers every coroutine and `dispatch` may use anywhere -/
+structure LeafR (I : State → Prop) : Prop extends LeafW I where
+  setStatus : ∀ u st, st ≠ Status.stopped → Pres I (setStatus u st)    -- `.stopped` is written by `stopCore`/`guardedStop` only
+  trySetNp : ∀ u n, Pres I (trySetNp u n)
+  setWOpt : ∀ u c, Pres I (setWOpt u c)
+  freshId : Pres I freshId
+  pushFrame : ∀ f, Pres I (pushFrame f)
+  removeFrame : ∀ f, Pres I (removeFrame f)
+  setFrameK : ∀ f k, Pres I (setFrameK f k)
+  armFrame : ∀ f, Pres I (armFrame f)
+  pushSleeper : ∀ sl, Pres I (pushSleeper sl)
+  armTop : ∀ t, Pres I (armTop t)
+  setStopping : Pres I setStopping
+  setRestarting : Pres I setRestarting
+  setLoopStop : ∀ b, Pres I (setLoopStop b)
+  setSocketEvent : ∀ b, Pres I (setSocketEvent b)
+  setSockReady : ∀ b, Pres I (setSockReady b)
+  clearDone : Pres I clearDone
+  unregister : ∀ u, Pres I (unregisterWatcher u)
+  registerNew : ∀ w, w.pids = [] → Pres I (registerNew w)    -- a new watcher object lists no process
+  fireSleeper : ∀ sl, Pres I (fireSleeper sl)
+  enqueueResume : ∀ k v w, Pres I (enqueue (.resume k v w))
+  enqueueCallback : ∀ n, Pres I (enqueue (.callback n))
+
+/-- composite operations: the exclusive slot, top-level futures, and the three places that adopt a
+    process or write `stopped` -/
+structure SpecCoreR (I : State → Prop) : Prop extends LeafR I where
+  deliverTop : ∀ tid v, Pres I (deliverTop tid v)
+  newTopNR : ∀ cbs, TopCb.release ∉ cbs → Pres I (newTop cbs)
+  addDone : ∀ tid cb, cb ≠ TopCb.release → Pres I (addDoneCallback tid cb)
+  syncCo : (∀ n t, Pres I (exec n t)) → ∀ name c, Pres I (syncCoroutine name c [])
+  syncSetOpt : ∀ u key val len, Pres I (syncPlain "watcher_set_opt" (setOptBody u key val len))
+  syncAdd : ∀ props, Pres I (syncPlain "arbiter_add_watcher" (addCore props))
+  spawnProcess : ∀ rec, (∀ t, Pres I (rec t)) → ∀ u, Pres I (spawnProcess rec u)
+  stopCore : ∀ u, Pres I (stopCore u)
+  guardedStop : ∀ u, Pres I (guardedStop u)
+
+/-- … plus the reply writer (everything a request does) -/
+structure SpecMR (I : State → Prop) : Prop extends SpecCoreR I where
+  emitRep : ∀ c i a b d, Pres I (emitRep c i a b d)
+
+/-- … plus what only the event loop does -/
+structure SpecR (I : State → Prop) : Prop extends SpecMR I where
+  settleStep : (∀ n t, Pres I (exec n t)) → Pres I sigQuit → Pres I settleStep
+  stopController : Pres I stopController
+
+/-! ### the full structures (every writer, anywhere) -/
 
 /-- writers that touch neither the exclusive slot, nor top-level futures, nor the directory -/
 structure Leaf (I : State → Prop) : Prop extends LeafW I where
@@ -65,14 +169,13 @@ structure Spec (I : State → Prop) : Prop extends SpecCore I where
 
 attribute [aesop safe apply (rule_sets := [Pres])] Pres.pure Pres.getS Pres.getK Pres.getA Pres.getW Pres.getO Pres.nowMs
 attribute [aesop safe apply (rule_sets := [Pres])] Pres.bind Pres.ite Pres.for_in
-attribute [aesop safe apply (rule_sets := [Pres])] LeafK.emit Leaf.setStatus Leaf.trySetNp Leaf.spawnAdopt LeafW.popPid
-  LeafW.bumpHook Leaf.setWOpt LeafW.setObjStopping LeafW.setRc LeafW.markBlocked LeafW.emitEv Leaf.freshId Leaf.pushFrame
-  Leaf.removeFrame Leaf.setFrameK Leaf.armFrame Leaf.pushSleeper Leaf.armTop Leaf.setClosed Leaf.setStopping
-  Leaf.setRestarting Leaf.setLoopStop Leaf.setSocketEvent Leaf.setSockReady Leaf.clearDone Leaf.unregister Leaf.fireSleeper
-  Leaf.enqueueResume Leaf.enqueueCallback
-attribute [aesop safe apply (rule_sets := [Pres])] SpecCore.deliverTop SpecCore.syncSetOpt SpecCore.syncAdd
+attribute [aesop safe apply (rule_sets := [Pres])] LeafK.emit LeafW.popPid LeafW.bumpHook LeafW.setObjStopping LeafW.setRc
+  LeafW.markBlocked LeafW.emitEv
+attribute [aesop safe apply (rule_sets := [Pres])] LeafR.trySetNp LeafR.setWOpt LeafR.freshId LeafR.pushFrame LeafR.removeFrame LeafR.setFrameK LeafR.armFrame LeafR.pushSleeper LeafR.armTop LeafR.setStopping LeafR.setRestarting LeafR.setLoopStop LeafR.setSocketEvent LeafR.setSockReady LeafR.clearDone LeafR.unregister LeafR.fireSleeper LeafR.enqueueResume LeafR.enqueueCallback
+attribute [aesop safe apply (rule_sets := [Pres])] SpecCoreR.deliverTop SpecCoreR.syncSetOpt SpecCoreR.syncAdd SpecCoreR.stopCore
+  SpecCoreR.guardedStop
 
-attribute [aesop safe apply (rule_sets := [Pres])] LeafW.toLeafK Leaf.toLeafW SpecCore.toLeaf Spec.toSpecCore
+attribute [aesop safe apply (rule_sets := [Pres])] LeafW.toLeafK LeafR.toLeafW SpecCoreR.toLeafR SpecMR.toSpecCoreR SpecR.toSpecMR
 
 macro "pres" : tactic => `(tactic| aesop (rule_sets := [Pres]) (config := { terminal := true, useDefaultSimpSet := false, useSimpAll := false, maxRuleApplications := 3000 }))
 
@@ -164,207 +267,200 @@ theorem arbReapProcesses_pres (L : LeafW I) : Pres I arbReapProcesses := by
   unfold arbReapProcesses; pres
 
 /-! ### Interp -/
+/-- the three status writes a coroutine makes in the open -/
 @[aesop safe apply (rule_sets := [Pres])]
-theorem newFrame_pres (L : Leaf I) (k : Kont) (p : Waiter) : Pres I (newFrame k p) := by
+theorem setStatus_stopping (L : LeafR I) (u : Nat) : Pres I (setStatus u .stopping) := L.setStatus u _ (by decide)
+@[aesop safe apply (rule_sets := [Pres])]
+theorem setStatus_starting (L : LeafR I) (u : Nat) : Pres I (setStatus u .starting) := L.setStatus u _ (by decide)
+@[aesop safe apply (rule_sets := [Pres])]
+theorem setStatus_active (L : LeafR I) (u : Nat) : Pres I (setStatus u .active) := L.setStatus u _ (by decide)
+
+@[aesop safe apply (rule_sets := [Pres])]
+theorem newFrame_presR (L : LeafR I) (k : Kont) (p : Waiter) : Pres I (newFrame k p) := by
   unfold newFrame; pres
 @[aesop safe apply (rule_sets := [Pres])]
-theorem addSleeper_pres (L : Leaf I) (ms : Nat) (w : Waiter) : Pres I (addSleeper ms w) := by
+theorem addSleeper_presR (L : LeafR I) (ms : Nat) (w : Waiter) : Pres I (addSleeper ms w) := by
   unfold addSleeper; pres
 @[aesop safe apply (rule_sets := [Pres])]
-theorem sendReply_pres (L : Leaf I) (hrep : ∀ c i a b d, Pres I (emitRep c i a b d))
+theorem sendReply_presR (L : LeafR I) (hrep : ∀ c i a b d, Pres I (emitRep c i a b d))
     (cid : Option String) (id : JVal) (c : Bool) (a b d : String) :
     Pres I (sendReply cid id c a b d) := by
   unfold sendReply
   aesop (add safe apply hrep) (rule_sets := [Pres])
     (config := { terminal := true, useDefaultSimpSet := false, useSimpAll := false, maxRuleApplications := 3000 })
 @[aesop safe apply (rule_sets := [Pres])]
-theorem stopController_pres (L : Leaf I) : Pres I stopController := by
-  unfold stopController; pres
-
-@[aesop safe apply (rule_sets := [Pres])]
-theorem multiCollect_pres (L : Leaf I) (rec : Rec) (hrec : ∀ t, Pres I (rec t)) (f sl : Nat) (v : Val) :
+theorem multiCollect_presR (L : LeafR I) (rec : Rec) (hrec : ∀ t, Pres I (rec t)) (f sl : Nat) (v : Val) :
     Pres I (multiCollect rec f sl v) := by
   unfold multiCollect; aesop (add safe apply hrec) (rule_sets := [Pres]) (config := { terminal := true, useDefaultSimpSet := false, useSimpAll := false, maxRuleApplications := 3000 })
 
 @[aesop safe apply (rule_sets := [Pres])]
-theorem deliver_pres (S : SpecCore I) (rec : Rec) (hrec : ∀ t, Pres I (rec t)) (w : Waiter) (v : Val) :
+theorem deliver_presR (S : SpecCoreR I) (rec : Rec) (hrec : ∀ t, Pres I (rec t)) (w : Waiter) (v : Val) :
     Pres I (deliver rec w v) := by
-  have L := S.toLeaf
+  have L := S.toLeafR
   unfold deliver; aesop (add safe apply hrec) (rule_sets := [Pres]) (config := { terminal := true, useDefaultSimpSet := false, useSimpAll := false, maxRuleApplications := 3000 })
 
 @[aesop safe apply (rule_sets := [Pres])]
-theorem await_pres (S : SpecCore I) (rec : Rec) (hrec : ∀ t, Pres I (rec t)) (c : Call) (k : Kont) (p : Waiter) :
+theorem await_presR (S : SpecCoreR I) (rec : Rec) (hrec : ∀ t, Pres I (rec t)) (c : Call) (k : Kont) (p : Waiter) :
     Pres I (await rec c k p) := by
-  have L := S.toLeaf
+  have L := S.toLeafR
   unfold await; aesop (add safe apply hrec) (rule_sets := [Pres]) (config := { terminal := true, useDefaultSimpSet := false, useSimpAll := false, maxRuleApplications := 3000 })
 @[aesop safe apply (rule_sets := [Pres])]
-theorem awaitSleep_pres (L : Leaf I) (ms : Nat) (k : Kont) (p : Waiter) : Pres I (awaitSleep ms k p) := by
+theorem awaitSleep_presR (L : LeafR I) (ms : Nat) (k : Kont) (p : Waiter) : Pres I (awaitSleep ms k p) := by
   unfold awaitSleep; pres
 @[aesop safe apply (rule_sets := [Pres])]
-theorem awaitMulti_pres (S : SpecCore I) (rec : Rec) (hrec : ∀ t, Pres I (rec t)) (cs : List Call) (k : Kont) (p : Waiter) :
+theorem awaitMulti_presR (S : SpecCoreR I) (rec : Rec) (hrec : ∀ t, Pres I (rec t)) (cs : List Call) (k : Kont) (p : Waiter) :
     Pres I (awaitMulti rec cs k p) := by
-  have L := S.toLeaf
+  have L := S.toLeafR
   unfold awaitMulti; aesop (add safe apply hrec) (rule_sets := [Pres]) (config := { terminal := true, useDefaultSimpSet := false, useSimpAll := false, maxRuleApplications := 3000 })
 
 /-! ### coroutine bodies (open recursion through `rec`) -/
 @[aesop safe apply (rule_sets := [Pres])]
-theorem popStrict_pres (L : Leaf I) (u p : Nat) : Pres I (popStrict u p) := by
+theorem popStrict_presR (L : LeafR I) (u p : Nat) : Pres I (popStrict u p) := by
   unfold popStrict; pres
 @[aesop safe apply (rule_sets := [Pres])]
-theorem pubBefore_pres (L : Leaf I) (u : Nat) : Pres I (pubBefore u) := by
+theorem pubBefore_presR (L : LeafR I) (u : Nat) : Pres I (pubBefore u) := by
   unfold pubBefore; pres
 @[aesop safe apply (rule_sets := [Pres])]
-theorem spawnTry_pres (S : SpecCore I) (rec : Rec) (hrec : ∀ t, Pres I (rec t)) (wuid n : Nat) : Pres I (spawnTry rec wuid n) := by
-  have L := S.toLeaf
-  have hnt : Pres I (newTop [TopCb.popProc wuid 0]) → True := fun _ => trivial
-  induction n with
-  | zero => unfold spawnTry; pres
-  | succ n ih =>
-    unfold spawnTry
-    have hnew : ∀ pid, Pres I (newTop [TopCb.popProc wuid pid]) := fun pid => S.newTopNR _ (by simp)
-    aesop (add safe apply ih, safe apply hrec, safe apply hnew) (rule_sets := [Pres]) (config := { terminal := true, useDefaultSimpSet := false, useSimpAll := false, maxRuleApplications := 3000 })
-@[aesop safe apply (rule_sets := [Pres])]
-theorem killFinish_pres (S : SpecCore I) (rec : Rec) (hrec : ∀ t, Pres I (rec t)) (wuid pid : Nat) (esc : Bool) (wt : Waiter) : Pres I (killFinish rec wuid pid esc wt) := by
-  have L := S.toLeaf
+theorem killFinish_presR (S : SpecCoreR I) (rec : Rec) (hrec : ∀ t, Pres I (rec t)) (wuid pid : Nat) (esc : Bool) (wt : Waiter) : Pres I (killFinish rec wuid pid esc wt) := by
+  have L := S.toLeafR
   unfold killFinish; aesop (add safe apply hrec) (rule_sets := [Pres]) (config := { terminal := true, useDefaultSimpSet := false, useSimpAll := false, maxRuleApplications := 3000 })
 @[aesop safe apply (rule_sets := [Pres])]
-theorem killLoop_pres (S : SpecCore I) (rec : Rec) (hrec : ∀ t, Pres I (rec t)) (wuid pid sig i polls : Nat) (wt : Waiter) : Pres I (killLoop rec wuid pid sig i polls wt) := by
-  have L := S.toLeaf
+theorem killLoop_presR (S : SpecCoreR I) (rec : Rec) (hrec : ∀ t, Pres I (rec t)) (wuid pid sig i polls : Nat) (wt : Waiter) : Pres I (killLoop rec wuid pid sig i polls wt) := by
+  have L := S.toLeafR
   unfold killLoop; aesop (add safe apply hrec) (rule_sets := [Pres]) (config := { terminal := true, useDefaultSimpSet := false, useSimpAll := false, maxRuleApplications := 3000 })
 @[aesop safe apply (rule_sets := [Pres])]
-theorem killProcess_pres (S : SpecCore I) (rec : Rec) (hrec : ∀ t, Pres I (rec t)) (wuid pid : Nat) (sig gt : Option Nat) (wt : Waiter) : Pres I (killProcess rec wuid pid sig gt wt) := by
-  have L := S.toLeaf
+theorem killProcess_presR (S : SpecCoreR I) (rec : Rec) (hrec : ∀ t, Pres I (rec t)) (wuid pid : Nat) (sig gt : Option Nat) (wt : Waiter) : Pres I (killProcess rec wuid pid sig gt wt) := by
+  have L := S.toLeafR
   unfold killProcess; aesop (add safe apply hrec) (rule_sets := [Pres]) (config := { terminal := true, useDefaultSimpSet := false, useSimpAll := false, maxRuleApplications := 3000 })
 @[aesop safe apply (rule_sets := [Pres])]
-theorem killProcesses_pres (S : SpecCore I) (rec : Rec) (hrec : ∀ t, Pres I (rec t)) (wuid : Nat) (sig gt : Option Nat) (wt : Waiter) : Pres I (killProcesses rec wuid sig gt wt) := by
-  have L := S.toLeaf
+theorem killProcesses_presR (S : SpecCoreR I) (rec : Rec) (hrec : ∀ t, Pres I (rec t)) (wuid : Nat) (sig gt : Option Nat) (wt : Waiter) : Pres I (killProcesses rec wuid sig gt wt) := by
+  have L := S.toLeafR
   unfold killProcesses; aesop (add safe apply hrec) (rule_sets := [Pres]) (config := { terminal := true, useDefaultSimpSet := false, useSimpAll := false, maxRuleApplications := 3000 })
 @[aesop safe apply (rule_sets := [Pres])]
-theorem stopW_pres (S : SpecCore I) (rec : Rec) (hrec : ∀ t, Pres I (rec t)) (wuid : Nat) (close : Bool) (wt : Waiter) : Pres I (stopW rec wuid close wt) := by
-  have L := S.toLeaf
+theorem stopW_presR (S : SpecCoreR I) (rec : Rec) (hrec : ∀ t, Pres I (rec t)) (wuid : Nat) (close : Bool) (wt : Waiter) : Pres I (stopW rec wuid close wt) := by
+  have L := S.toLeafR
   unfold stopW; aesop (add safe apply hrec) (rule_sets := [Pres]) (config := { terminal := true, useDefaultSimpSet := false, useSimpAll := false, maxRuleApplications := 3000 })
 @[aesop safe apply (rule_sets := [Pres])]
-theorem stopAfterKill_pres (S : SpecCore I) (rec : Rec) (hrec : ∀ t, Pres I (rec t)) (wuid : Nat) (close : Bool) (wt : Waiter) : Pres I (stopAfterKill rec wuid close wt) := by
-  have L := S.toLeaf
-  unfold stopAfterKill; aesop (add safe apply hrec) (rule_sets := [Pres]) (config := { terminal := true, useDefaultSimpSet := false, useSimpAll := false, maxRuleApplications := 3000 })
+theorem stopAfterKill_presR (S : SpecCoreR I) (rec : Rec) (hrec : ∀ t, Pres I (rec t)) (wuid : Nat) (close : Bool) (wt : Waiter) : Pres I (stopAfterKill rec wuid close wt) := by
+  have L := S.toLeafR
+  rw [stopAfterKill_eq]; aesop (add safe apply hrec) (rule_sets := [Pres]) (config := { terminal := true, useDefaultSimpSet := false, useSimpAll := false, maxRuleApplications := 3000 })
 @[aesop safe apply (rule_sets := [Pres])]
-theorem spawnProcess_pres (S : SpecCore I) (rec : Rec) (hrec : ∀ t, Pres I (rec t)) (wuid : Nat) : Pres I (spawnProcess rec wuid) := by
-  have L := S.toLeaf
-  unfold spawnProcess; aesop (add safe apply hrec) (rule_sets := [Pres]) (config := { terminal := true, useDefaultSimpSet := false, useSimpAll := false, maxRuleApplications := 3000 })
+theorem spawnProcess_presR (S : SpecCoreR I) (rec : Rec) (hrec : ∀ t, Pres I (rec t)) (wuid : Nat) : Pres I (spawnProcess rec wuid) :=
+  S.spawnProcess rec hrec wuid
 @[aesop safe apply (rule_sets := [Pres])]
-theorem pendingSocketEvent_pres (L : Leaf I) (u : Nat) : Pres I (pendingSocketEvent u) := by
+theorem pendingSocketEvent_presR (L : LeafR I) (u : Nat) : Pres I (pendingSocketEvent u) := by
   unfold pendingSocketEvent; pres
 @[aesop safe apply (rule_sets := [Pres])]
-theorem spawnLoop_pres (S : SpecCore I) (rec : Rec) (hrec : ∀ t, Pres I (rec t)) (wuid rem : Nat) (wt : Waiter) : Pres I (spawnLoop rec wuid rem wt) := by
-  have L := S.toLeaf
+theorem spawnLoop_presR (S : SpecCoreR I) (rec : Rec) (hrec : ∀ t, Pres I (rec t)) (wuid rem : Nat) (wt : Waiter) : Pres I (spawnLoop rec wuid rem wt) := by
+  have L := S.toLeafR
   unfold spawnLoop; aesop (add safe apply hrec) (rule_sets := [Pres]) (config := { terminal := true, useDefaultSimpSet := false, useSimpAll := false, maxRuleApplications := 3000 })
 @[aesop safe apply (rule_sets := [Pres])]
-theorem spawnProcesses_pres (S : SpecCore I) (rec : Rec) (hrec : ∀ t, Pres I (rec t)) (wuid : Nat) (wt : Waiter) : Pres I (spawnProcesses rec wuid wt) := by
-  have L := S.toLeaf
-  unfold spawnProcesses; aesop (add safe apply hrec) (rule_sets := [Pres]) (config := { terminal := true, useDefaultSimpSet := false, useSimpAll := false, maxRuleApplications := 3000 })
+theorem spawnProcesses_presR (S : SpecCoreR I) (rec : Rec) (hrec : ∀ t, Pres I (rec t)) (wuid : Nat) (wt : Waiter) : Pres I (spawnProcesses rec wuid wt) := by
+  have L := S.toLeafR
+  rw [spawnProcesses_eq]; aesop (add safe apply hrec) (rule_sets := [Pres]) (config := { terminal := true, useDefaultSimpSet := false, useSimpAll := false, maxRuleApplications := 3000 })
 @[aesop safe apply (rule_sets := [Pres])]
-theorem popKilled_pres (S : SpecCore I) (rec : Rec) (hrec : ∀ t, Pres I (rec t)) (wuid : Nat) (tk : List Nat) (v : Val) (wt : Waiter) : Pres I (popKilled rec wuid tk v wt) := by
-  have L := S.toLeaf
+theorem popKilled_presR (S : SpecCoreR I) (rec : Rec) (hrec : ∀ t, Pres I (rec t)) (wuid : Nat) (tk : List Nat) (v : Val) (wt : Waiter) : Pres I (popKilled rec wuid tk v wt) := by
+  have L := S.toLeafR
   unfold popKilled; aesop (add safe apply hrec) (rule_sets := [Pres]) (config := { terminal := true, useDefaultSimpSet := false, useSimpAll := false, maxRuleApplications := 3000 })
 @[aesop safe apply (rule_sets := [Pres])]
-theorem manageTail_pres (S : SpecCore I) (rec : Rec) (hrec : ∀ t, Pres I (rec t)) (wuid : Nat) (wt : Waiter) : Pres I (manageTail rec wuid wt) := by
-  have L := S.toLeaf
+theorem manageTail_presR (S : SpecCoreR I) (rec : Rec) (hrec : ∀ t, Pres I (rec t)) (wuid : Nat) (wt : Waiter) : Pres I (manageTail rec wuid wt) := by
+  have L := S.toLeafR
   unfold manageTail; aesop (add safe apply hrec) (rule_sets := [Pres]) (config := { terminal := true, useDefaultSimpSet := false, useSimpAll := false, maxRuleApplications := 3000 })
 @[aesop safe apply (rule_sets := [Pres])]
-theorem manageAfterExpire_pres (S : SpecCore I) (rec : Rec) (hrec : ∀ t, Pres I (rec t)) (wuid : Nat) (wt : Waiter) : Pres I (manageAfterExpire rec wuid wt) := by
-  have L := S.toLeaf
+theorem manageAfterExpire_presR (S : SpecCoreR I) (rec : Rec) (hrec : ∀ t, Pres I (rec t)) (wuid : Nat) (wt : Waiter) : Pres I (manageAfterExpire rec wuid wt) := by
+  have L := S.toLeafR
   unfold manageAfterExpire; aesop (add safe apply hrec) (rule_sets := [Pres]) (config := { terminal := true, useDefaultSimpSet := false, useSimpAll := false, maxRuleApplications := 3000 })
 @[aesop safe apply (rule_sets := [Pres])]
-theorem removeExpired_pres (S : SpecCore I) (rec : Rec) (hrec : ∀ t, Pres I (rec t)) (wuid : Nat) (wt : Waiter) : Pres I (removeExpired rec wuid wt) := by
-  have L := S.toLeaf
+theorem removeExpired_presR (S : SpecCoreR I) (rec : Rec) (hrec : ∀ t, Pres I (rec t)) (wuid : Nat) (wt : Waiter) : Pres I (removeExpired rec wuid wt) := by
+  have L := S.toLeafR
   unfold removeExpired; aesop (add safe apply hrec) (rule_sets := [Pres]) (config := { terminal := true, useDefaultSimpSet := false, useSimpAll := false, maxRuleApplications := 3000 })
 @[aesop safe apply (rule_sets := [Pres])]
-theorem manageProcesses_pres (S : SpecCore I) (rec : Rec) (hrec : ∀ t, Pres I (rec t)) (wuid : Nat) (wt : Waiter) : Pres I (manageProcesses rec wuid wt) := by
-  have L := S.toLeaf
+theorem manageProcesses_presR (S : SpecCoreR I) (rec : Rec) (hrec : ∀ t, Pres I (rec t)) (wuid : Nat) (wt : Waiter) : Pres I (manageProcesses rec wuid wt) := by
+  have L := S.toLeafR
   unfold manageProcesses; aesop (add safe apply hrec) (rule_sets := [Pres]) (config := { terminal := true, useDefaultSimpSet := false, useSimpAll := false, maxRuleApplications := 3000 })
 @[aesop safe apply (rule_sets := [Pres])]
-theorem startW_pres (S : SpecCore I) (rec : Rec) (hrec : ∀ t, Pres I (rec t)) (wuid : Nat) (wt : Waiter) : Pres I (startW rec wuid wt) := by
-  have L := S.toLeaf
+theorem startW_presR (S : SpecCoreR I) (rec : Rec) (hrec : ∀ t, Pres I (rec t)) (wuid : Nat) (wt : Waiter) : Pres I (startW rec wuid wt) := by
+  have L := S.toLeafR
   unfold startW; aesop (add safe apply hrec) (rule_sets := [Pres]) (config := { terminal := true, useDefaultSimpSet := false, useSimpAll := false, maxRuleApplications := 3000 })
 @[aesop safe apply (rule_sets := [Pres])]
-theorem startAfterSpawn_pres (S : SpecCore I) (rec : Rec) (hrec : ∀ t, Pres I (rec t)) (wuid : Nat) (wt : Waiter) : Pres I (startAfterSpawn rec wuid wt) := by
-  have L := S.toLeaf
+theorem startAfterSpawn_presR (S : SpecCoreR I) (rec : Rec) (hrec : ∀ t, Pres I (rec t)) (wuid : Nat) (wt : Waiter) : Pres I (startAfterSpawn rec wuid wt) := by
+  have L := S.toLeafR
   unfold startAfterSpawn; aesop (add safe apply hrec) (rule_sets := [Pres]) (config := { terminal := true, useDefaultSimpSet := false, useSimpAll := false, maxRuleApplications := 3000 })
 @[aesop safe apply (rule_sets := [Pres])]
-theorem reloadW_pres (S : SpecCore I) (rec : Rec) (hrec : ∀ t, Pres I (rec t)) (wuid : Nat) (g sq : Bool) (wt : Waiter) : Pres I (reloadW rec wuid g sq wt) := by
-  have L := S.toLeaf
+theorem reloadW_presR (S : SpecCoreR I) (rec : Rec) (hrec : ∀ t, Pres I (rec t)) (wuid : Nat) (g sq : Bool) (wt : Waiter) : Pres I (reloadW rec wuid g sq wt) := by
+  have L := S.toLeafR
   unfold reloadW; aesop (add safe apply hrec) (rule_sets := [Pres]) (config := { terminal := true, useDefaultSimpSet := false, useSimpAll := false, maxRuleApplications := 3000 })
 @[aesop safe apply (rule_sets := [Pres])]
-theorem reloadSeqNext_pres (S : SpecCore I) (rec : Rec) (hrec : ∀ t, Pres I (rec t)) (wuid : Nat) (rest : List Nat) (wt : Waiter) : Pres I (reloadSeqNext rec wuid rest wt) := by
-  have L := S.toLeaf
+theorem reloadSeqNext_presR (S : SpecCoreR I) (rec : Rec) (hrec : ∀ t, Pres I (rec t)) (wuid : Nat) (rest : List Nat) (wt : Waiter) : Pres I (reloadSeqNext rec wuid rest wt) := by
+  have L := S.toLeafR
   unfold reloadSeqNext; aesop (add safe apply hrec) (rule_sets := [Pres]) (config := { terminal := true, useDefaultSimpSet := false, useSimpAll := false, maxRuleApplications := 3000 })
 @[aesop safe apply (rule_sets := [Pres])]
-theorem reloadSeqAfterKill_pres (S : SpecCore I) (rec : Rec) (hrec : ∀ t, Pres I (rec t)) (wuid pid : Nat) (rest : List Nat) (wt : Waiter) : Pres I (reloadSeqAfterKill rec wuid pid rest wt) := by
-  have L := S.toLeaf
+theorem reloadSeqAfterKill_presR (S : SpecCoreR I) (rec : Rec) (hrec : ∀ t, Pres I (rec t)) (wuid pid : Nat) (rest : List Nat) (wt : Waiter) : Pres I (reloadSeqAfterKill rec wuid pid rest wt) := by
+  have L := S.toLeafR
   unfold reloadSeqAfterKill; aesop (add safe apply hrec) (rule_sets := [Pres]) (config := { terminal := true, useDefaultSimpSet := false, useSimpAll := false, maxRuleApplications := 3000 })
 @[aesop safe apply (rule_sets := [Pres])]
-theorem setNumprocesses_pres (S : SpecCore I) (rec : Rec) (hrec : ∀ t, Pres I (rec t)) (wuid : Nat) (n : Int) (wt : Waiter) : Pres I (setNumprocesses rec wuid n wt) := by
-  have L := S.toLeaf
+theorem setNumprocesses_presR (S : SpecCoreR I) (rec : Rec) (hrec : ∀ t, Pres I (rec t)) (wuid : Nat) (n : Int) (wt : Waiter) : Pres I (setNumprocesses rec wuid n wt) := by
+  have L := S.toLeafR
   unfold setNumprocesses; aesop (add safe apply hrec) (rule_sets := [Pres]) (config := { terminal := true, useDefaultSimpSet := false, useSimpAll := false, maxRuleApplications := 3000 })
 @[aesop safe apply (rule_sets := [Pres])]
-theorem doAction_pres (S : SpecCore I) (rec : Rec) (hrec : ∀ t, Pres I (rec t)) (wuid : Nat) (n : Int) (wt : Waiter) : Pres I (doAction rec wuid n wt) := by
-  have L := S.toLeaf
+theorem doAction_presR (S : SpecCoreR I) (rec : Rec) (hrec : ∀ t, Pres I (rec t)) (wuid : Nat) (n : Int) (wt : Waiter) : Pres I (doAction rec wuid n wt) := by
+  have L := S.toLeafR
   unfold doAction; aesop (add safe apply hrec) (rule_sets := [Pres]) (config := { terminal := true, useDefaultSimpSet := false, useSimpAll := false, maxRuleApplications := 3000 })
 @[aesop safe apply (rule_sets := [Pres])]
-theorem pubInfo_pres (S : SpecCore I) (rec : Rec) (hrec : ∀ t, Pres I (rec t)) (wuid : Nat) (b : List Nat) (wt : Waiter) : Pres I (pubInfo rec wuid b wt) := by
-  have L := S.toLeaf
+theorem pubInfo_presR (S : SpecCoreR I) (rec : Rec) (hrec : ∀ t, Pres I (rec t)) (wuid : Nat) (b : List Nat) (wt : Waiter) : Pres I (pubInfo rec wuid b wt) := by
+  have L := S.toLeafR
   unfold pubInfo; aesop (add safe apply hrec) (rule_sets := [Pres]) (config := { terminal := true, useDefaultSimpSet := false, useSimpAll := false, maxRuleApplications := 3000 })
 @[aesop safe apply (rule_sets := [Pres])]
-theorem arbStartNext_pres (S : SpecCore I) (rec : Rec) (hrec : ∀ t, Pres I (rec t)) (ws : List Nat) (wt : Waiter) : Pres I (arbStartNext rec ws wt) := by
-  have L := S.toLeaf
+theorem arbStartNext_presR (S : SpecCoreR I) (rec : Rec) (hrec : ∀ t, Pres I (rec t)) (ws : List Nat) (wt : Waiter) : Pres I (arbStartNext rec ws wt) := by
+  have L := S.toLeafR
   unfold arbStartNext; aesop (add safe apply hrec) (rule_sets := [Pres]) (config := { terminal := true, useDefaultSimpSet := false, useSimpAll := false, maxRuleApplications := 3000 })
 @[aesop safe apply (rule_sets := [Pres])]
-theorem arbStartAfterStart_pres (S : SpecCore I) (rec : Rec) (hrec : ∀ t, Pres I (rec t)) (ws : List Nat) (wt : Waiter) : Pres I (arbStartAfterStart rec ws wt) := by
-  have L := S.toLeaf
+theorem arbStartAfterStart_presR (S : SpecCoreR I) (rec : Rec) (hrec : ∀ t, Pres I (rec t)) (ws : List Nat) (wt : Waiter) : Pres I (arbStartAfterStart rec ws wt) := by
+  have L := S.toLeafR
   unfold arbStartAfterStart; aesop (add safe apply hrec) (rule_sets := [Pres]) (config := { terminal := true, useDefaultSimpSet := false, useSimpAll := false, maxRuleApplications := 3000 })
 @[aesop safe apply (rule_sets := [Pres])]
-theorem arbStopTail_pres (S : SpecCore I) (rec : Rec) (hrec : ∀ t, Pres I (rec t)) (wt : Waiter) : Pres I (arbStopTail rec wt) := by
-  have L := S.toLeaf
+theorem arbStopTail_presR (S : SpecCoreR I) (rec : Rec) (hrec : ∀ t, Pres I (rec t)) (wt : Waiter) : Pres I (arbStopTail rec wt) := by
+  have L := S.toLeafR
   unfold arbStopTail; aesop (add safe apply hrec) (rule_sets := [Pres]) (config := { terminal := true, useDefaultSimpSet := false, useSimpAll := false, maxRuleApplications := 3000 })
 @[aesop safe apply (rule_sets := [Pres])]
-theorem arbStop_pres (S : SpecCore I) (rec : Rec) (hrec : ∀ t, Pres I (rec t)) (wt : Waiter) : Pres I (arbStop rec wt) := by
-  have L := S.toLeaf
+theorem arbStop_presR (S : SpecCoreR I) (rec : Rec) (hrec : ∀ t, Pres I (rec t)) (wt : Waiter) : Pres I (arbStop rec wt) := by
+  have L := S.toLeafR
   unfold arbStop; aesop (add safe apply hrec) (rule_sets := [Pres]) (config := { terminal := true, useDefaultSimpSet := false, useSimpAll := false, maxRuleApplications := 3000 })
 @[aesop safe apply (rule_sets := [Pres])]
-theorem arbRestartInside_pres (S : SpecCore I) (rec : Rec) (hrec : ∀ t, Pres I (rec t)) (wt : Waiter) : Pres I (arbRestartInside rec wt) := by
-  have L := S.toLeaf
+theorem arbRestartInside_presR (S : SpecCoreR I) (rec : Rec) (hrec : ∀ t, Pres I (rec t)) (wt : Waiter) : Pres I (arbRestartInside rec wt) := by
+  have L := S.toLeafR
   unfold arbRestartInside; aesop (add safe apply hrec) (rule_sets := [Pres]) (config := { terminal := true, useDefaultSimpSet := false, useSimpAll := false, maxRuleApplications := 3000 })
 @[aesop safe apply (rule_sets := [Pres])]
-theorem arbReloadNext_pres (S : SpecCore I) (rec : Rec) (hrec : ∀ t, Pres I (rec t)) (ws : List Nat) (g sq : Bool) (wt : Waiter) : Pres I (arbReloadNext rec ws g sq wt) := by
-  have L := S.toLeaf
+theorem arbReloadNext_presR (S : SpecCoreR I) (rec : Rec) (hrec : ∀ t, Pres I (rec t)) (ws : List Nat) (g sq : Bool) (wt : Waiter) : Pres I (arbReloadNext rec ws g sq wt) := by
+  have L := S.toLeafR
   unfold arbReloadNext; aesop (add safe apply hrec) (rule_sets := [Pres]) (config := { terminal := true, useDefaultSimpSet := false, useSimpAll := false, maxRuleApplications := 3000 })
 @[aesop safe apply (rule_sets := [Pres])]
-theorem arbReloadAfter_pres (S : SpecCore I) (rec : Rec) (hrec : ∀ t, Pres I (rec t)) (ws : List Nat) (g sq : Bool) (wt : Waiter) : Pres I (arbReloadAfter rec ws g sq wt) := by
-  have L := S.toLeaf
+theorem arbReloadAfter_presR (S : SpecCoreR I) (rec : Rec) (hrec : ∀ t, Pres I (rec t)) (ws : List Nat) (g sq : Bool) (wt : Waiter) : Pres I (arbReloadAfter rec ws g sq wt) := by
+  have L := S.toLeafR
   unfold arbReloadAfter; aesop (add safe apply hrec) (rule_sets := [Pres]) (config := { terminal := true, useDefaultSimpSet := false, useSimpAll := false, maxRuleApplications := 3000 })
 @[aesop safe apply (rule_sets := [Pres])]
-theorem manageWatchers_pres (S : SpecCore I) (rec : Rec) (hrec : ∀ t, Pres I (rec t)) (wt : Waiter) : Pres I (manageWatchers rec wt) := by
-  have L := S.toLeaf
+theorem manageWatchers_presR (S : SpecCoreR I) (rec : Rec) (hrec : ∀ t, Pres I (rec t)) (wt : Waiter) : Pres I (manageWatchers rec wt) := by
+  have L := S.toLeafR
   unfold manageWatchers; aesop (add safe apply hrec) (rule_sets := [Pres]) (config := { terminal := true, useDefaultSimpSet := false, useSimpAll := false, maxRuleApplications := 3000 })
 @[aesop safe apply (rule_sets := [Pres])]
-theorem rmWatcher_pres (S : SpecCore I) (rec : Rec) (hrec : ∀ t, Pres I (rec t)) (uid : Nat) (ns : Bool) (wt : Waiter) : Pres I (rmWatcher rec uid ns wt) := by
-  have L := S.toLeaf
+theorem rmWatcher_presR (S : SpecCoreR I) (rec : Rec) (hrec : ∀ t, Pres I (rec t)) (uid : Nat) (ns : Bool) (wt : Waiter) : Pres I (rmWatcher rec uid ns wt) := by
+  have L := S.toLeafR
   unfold rmWatcher; aesop (add safe apply hrec) (rule_sets := [Pres]) (config := { terminal := true, useDefaultSimpSet := false, useSimpAll := false, maxRuleApplications := 3000 })
 @[aesop safe apply (rule_sets := [Pres])]
-theorem manageWatchersTail_pres (S : SpecCore I) (rec : Rec) (hrec : ∀ t, Pres I (rec t)) (need : Bool) (wt : Waiter) : Pres I (manageWatchersTail rec need wt) := by
-  have L := S.toLeaf
+theorem manageWatchersTail_presR (S : SpecCoreR I) (rec : Rec) (hrec : ∀ t, Pres I (rec t)) (need : Bool) (wt : Waiter) : Pres I (manageWatchersTail rec need wt) := by
+  have L := S.toLeafR
   have hnt : Pres I (newTop [TopCb.watch]) := S.newTopNR _ (by simp)
   unfold manageWatchersTail; aesop (add safe apply hrec, safe apply hnt) (rule_sets := [Pres]) (config := { terminal := true, useDefaultSimpSet := false, useSimpAll := false, maxRuleApplications := 3000 })
 @[aesop safe apply (rule_sets := [Pres])]
-theorem runCall_pres (S : SpecCore I) (rec : Rec) (hrec : ∀ t, Pres I (rec t)) (c : Call) (wt : Waiter) : Pres I (runCall rec c wt) := by
-  have L := S.toLeaf
+theorem runCall_presR (S : SpecCoreR I) (rec : Rec) (hrec : ∀ t, Pres I (rec t)) (c : Call) (wt : Waiter) : Pres I (runCall rec c wt) := by
+  have L := S.toLeafR
   unfold runCall; aesop (add safe apply hrec) (rule_sets := [Pres]) (config := { terminal := true, useDefaultSimpSet := false, useSimpAll := false, maxRuleApplications := 3000 })
 @[aesop safe apply (rule_sets := [Pres])]
-theorem runResume_pres (S : SpecCore I) (rec : Rec) (hrec : ∀ t, Pres I (rec t)) (k : Kont) (v : Val) (wt : Waiter) : Pres I (runResume rec k v wt) := by
-  have L := S.toLeaf
+theorem runResume_presR (S : SpecCoreR I) (rec : Rec) (hrec : ∀ t, Pres I (rec t)) (k : Kont) (v : Val) (wt : Waiter) : Pres I (runResume rec k v wt) := by
+  have L := S.toLeafR
   unfold runResume; aesop (add safe apply hrec) (rule_sets := [Pres]) (config := { terminal := true, useDefaultSimpSet := false, useSimpAll := false, maxRuleApplications := 3000 })
-theorem exec_pres (S : SpecCore I) (n : Nat) (t : Task) : Pres I (exec n t) := by
-  have L := S.toLeaf
+theorem exec_presR (S : SpecCoreR I) (n : Nat) (t : Task) : Pres I (exec n t) := by
+  have L := S.toLeafR
   induction n generalizing t with
   | zero => unfold exec; pres
   | succ n ih =>
@@ -372,124 +468,422 @@ theorem exec_pres (S : SpecCore I) (n : Nat) (t : Task) : Pres I (exec n t) := b
     aesop (add safe apply ih) (rule_sets := [Pres]) (config := { terminal := true, useDefaultSimpSet := false, useSimpAll := false, maxRuleApplications := 3000 })
 /-! ### dispatch and commands -/
 @[aesop safe apply (rule_sets := [Pres])]
-theorem lookupWatcher_pres (L : Leaf I) (n : String) : Pres I (lookupWatcher n) := by
+theorem lookupWatcher_presR (L : LeafR I) (n : String) : Pres I (lookupWatcher n) := by
   unfold lookupWatcher; pres
 @[aesop safe apply (rule_sets := [Pres])]
-theorem getWatcherCmd_pres (L : Leaf I) (n : JVal) : Pres I (getWatcherCmd n) := by
+theorem getWatcherCmd_presR (L : LeafR I) (n : JVal) : Pres I (getWatcherCmd n) := by
   unfold getWatcherCmd; pres
 @[aesop safe apply (rule_sets := [Pres])]
-theorem matchWatchers_pres (L : Leaf I) (p : JVal) : Pres I (matchWatchers p) := by
+theorem matchWatchers_presR (L : LeafR I) (p : JVal) : Pres I (matchWatchers p) := by
   unfold matchWatchers; pres
 @[aesop safe apply (rule_sets := [Pres])]
-theorem sortUids_pres (L : Leaf I) (us : List Nat) (r : Bool) : Pres I (sortUids us r) := by
+theorem sortUids_presR (L : LeafR I) (us : List Nat) (r : Bool) : Pres I (sortUids us r) := by
   unfold sortUids; pres
 @[aesop safe apply (rule_sets := [Pres])]
-theorem plainCoroutine_pres (S : SpecCore I) (c : Call) : Pres I (plainCoroutine c []) := by
-  have L := S.toLeaf
+theorem plainCoroutine_presR (S : SpecCoreR I) (c : Call) : Pres I (plainCoroutine c []) := by
+  have L := S.toLeafR
   have h1 : Pres I (newTop ([] : List TopCb)) := S.newTopNR _ (by simp)
-  have h2 := exec_pres S
+  have h2 := exec_presR S
   unfold plainCoroutine
   aesop (add safe apply h1, safe apply h2) (rule_sets := [Pres]) (config := { terminal := true, useDefaultSimpSet := false, useSimpAll := false, maxRuleApplications := 3000 })
 @[aesop safe apply (rule_sets := [Pres])]
-theorem syncCoroutine_pres (S : SpecCore I) (name : String) (c : Call) : Pres I (syncCoroutine name c []) :=
-  S.syncCo (exec_pres S) name c
+theorem syncCoroutine_presR (S : SpecCoreR I) (name : String) (c : Call) : Pres I (syncCoroutine name c []) :=
+  S.syncCo (exec_presR S) name c
 @[aesop safe apply (rule_sets := [Pres])]
-theorem execSSR_pres (S : SpecCore I) (kind : String) (p : JVal) : Pres I (execSSR kind p) := by
-  have L := S.toLeaf
+theorem execSSR_presR (S : SpecCoreR I) (kind : String) (p : JVal) : Pres I (execSSR kind p) := by
+  have L := S.toLeafR
   unfold execSSR; pres
 @[aesop safe apply (rule_sets := [Pres])]
-theorem execIncrDecr_pres (S : SpecCore I) (sg : Int) (p : JVal) : Pres I (execIncrDecr sg p) := by
-  have L := S.toLeaf
+theorem execIncrDecr_presR (S : SpecCoreR I) (sg : Int) (p : JVal) : Pres I (execIncrDecr sg p) := by
+  have L := S.toLeafR
   unfold execIncrDecr; pres
 @[aesop safe apply (rule_sets := [Pres])]
-theorem execReload_pres (S : SpecCore I) (p : JVal) : Pres I (execReload p) := by
-  have L := S.toLeaf
+theorem execReload_presR (S : SpecCoreR I) (p : JVal) : Pres I (execReload p) := by
+  have L := S.toLeafR
   unfold execReload; pres
 @[aesop safe apply (rule_sets := [Pres])]
-theorem execSet_pres (S : SpecCore I) (p : JVal) : Pres I (execSet p) := by
-  have L := S.toLeaf
+theorem execSet_presR (S : SpecCoreR I) (p : JVal) : Pres I (execSet p) := by
+  have L := S.toLeafR
   unfold execSet; pres
 @[aesop safe apply (rule_sets := [Pres])]
-theorem execKill_pres (S : SpecCore I) (p : JVal) : Pres I (execKill p) := by
-  have L := S.toLeaf
+theorem execKill_presR (S : SpecCoreR I) (p : JVal) : Pres I (execKill p) := by
+  have L := S.toLeafR
   unfold execKill; pres
 @[aesop safe apply (rule_sets := [Pres])]
-theorem execSignal_pres (S : SpecCore I) (p : JVal) : Pres I (execSignal p) := by
-  have L := S.toLeaf
+theorem execSignal_presR (S : SpecCoreR I) (p : JVal) : Pres I (execSignal p) := by
+  have L := S.toLeafR
   unfold execSignal; pres
 @[aesop safe apply (rule_sets := [Pres])]
-theorem execRm_pres (S : SpecCore I) (p : JVal) : Pres I (execRm p) := by
-  have L := S.toLeaf
+theorem execRm_presR (S : SpecCoreR I) (p : JVal) : Pres I (execRm p) := by
+  have L := S.toLeafR
   unfold execRm; pres
 @[aesop safe apply (rule_sets := [Pres])]
-theorem execAdd_pres (S : SpecCore I) (p : JVal) : Pres I (execAdd p) := by
-  have L := S.toLeaf
+theorem execAdd_presR (S : SpecCoreR I) (p : JVal) : Pres I (execAdd p) := by
+  have L := S.toLeafR
   unfold execAdd; pres
 @[aesop safe apply (rule_sets := [Pres])]
-theorem execReadOnly_pres (S : SpecCore I) (c : String) (p : JVal) : Pres I (execReadOnly c p) := by
-  have L := S.toLeaf
+theorem execReadOnly_presR (S : SpecCoreR I) (c : String) (p : JVal) : Pres I (execReadOnly c p) := by
+  have L := S.toLeafR
   unfold execReadOnly; pres
 @[aesop safe apply (rule_sets := [Pres])]
-theorem validateExecute_pres (S : SpecCore I) (c : String) (p : JVal) : Pres I (validateExecute c p) := by
-  have L := S.toLeaf
+theorem validateExecute_presR (S : SpecCoreR I) (c : String) (p : JVal) : Pres I (validateExecute c p) := by
+  have L := S.toLeafR
   unfold validateExecute; pres
 @[aesop safe apply (rule_sets := [Pres])]
-theorem handleMessage_pres (S : Spec I) (cid : Option String) (msg : Option JVal) : Pres I (handleMessage cid msg) := by
-  have L := S.toLeaf
+theorem handleMessage_presR (S : SpecMR I) (cid : Option String) (msg : Option JVal) : Pres I (handleMessage cid msg) := by
+  have L := S.toLeafR
   have hadd : ∀ tid a b c d e f, Pres I (addDoneCallback tid (TopCb.reply a b c d e f)) :=
     fun tid a b c d e f => S.addDone _ _ (by simp)
   have hrep := S.emitRep
-  have hve := validateExecute_pres S.toSpecCore
+  have hve := validateExecute_presR S.toSpecCoreR
   unfold handleMessage
   aesop (add safe apply hadd, safe apply hrep, safe apply hve) (rule_sets := [Pres]) (config := { terminal := true, useDefaultSimpSet := false, useSimpAll := false, maxRuleApplications := 3000 })
 @[aesop safe apply (rule_sets := [Pres])]
-theorem sigQuit_pres (S : Spec I) : Pres I sigQuit := by
-  have L := S.toLeaf
-  have h := handleMessage_pres S
+theorem sigQuit_presR (S : SpecMR I) : Pres I sigQuit := by
+  have L := S.toLeafR
+  have h := handleMessage_presR S
   unfold sigQuit
   aesop (add safe apply h) (rule_sets := [Pres])
     (config := { terminal := true, useDefaultSimpSet := false, useSimpAll := false, maxRuleApplications := 3000 })
-theorem settle_pres (S : Spec I) (n : Nat) : Pres I (settle n) := by
-  have L := S.toLeaf
-  have hs := S.settleStep (exec_pres S.toSpecCore) (sigQuit_pres S)
+theorem settle_presR (S : SpecR I) (n : Nat) : Pres I (settle n) := by
+  have L := S.toLeafR
+  have hs := S.settleStep (exec_presR S.toSpecCoreR) (sigQuit_presR S.toSpecMR)
   induction n with
   | zero => unfold settle; pres
   | succ n ih =>
     unfold settle
     aesop (add safe apply ih, safe apply hs) (rule_sets := [Pres]) (config := { terminal := true, useDefaultSimpSet := false, useSimpAll := false, maxRuleApplications := 3000 })
-theorem stepOp_pres (S : Spec I) (op : Op) : Pres I (stepOp op) := by
-  have L := S.toLeaf
+theorem stepOp_presR (S : SpecMR I) (op : Op) : Pres I (stepOp op) := by
+  have L := S.toLeafR
   have hadd : ∀ tid, Pres I (addDoneCallback tid TopCb.watch) := fun tid => S.addDone _ _ (by simp)
-  have he := exec_pres S.toSpecCore
-  have hh := handleMessage_pres S
-  have hq := sigQuit_pres S
-  have hsc := syncCoroutine_pres S.toSpecCore
+  have he := exec_presR S.toSpecCoreR
+  have hh := handleMessage_presR S
+  have hq := sigQuit_presR S
+  have hsc := syncCoroutine_presR S.toSpecCoreR
   have hadv : ∀ ms ds, Pres I (updK fun k => k.advance ms ds) := fun ms ds => updK_pres L.toLeafK _ (fun k => KStep.advance k ms ds)
   have hdie : ∀ p st, Pres I (updK fun k => k.die p st) := fun p st => updK_pres L.toLeafK _ (fun k => KStep.die k p st)
   have hflt : ∀ n p st, Pres I (updK fun k => k.addFault n p st) := fun n p st => updK_pres L.toLeafK _ (fun k => KStep.addFault k n p st)
   cases op <;> simp only [stepOp] <;>
   aesop (add safe apply hadd, safe apply he, safe apply hh, safe apply hq, safe apply hsc, safe apply hadv, safe apply hdie, safe apply hflt) (rule_sets := [Pres])
     (config := { terminal := true, useDefaultSimpSet := false, useSimpAll := false, maxRuleApplications := 3000 })
-theorem stepTail_pres (S : Spec I) : Pres I stepTail := by
-  have L := S.toLeaf
-  have hst := settle_pres S
+theorem stepTail_presR (S : SpecR I) : Pres I stepTail := by
+  have L := S.toLeafR
+  have hst := settle_presR S
+  have hsc := S.stopController
   unfold stepTail
-  aesop (add safe apply hst) (rule_sets := [Pres])
+  aesop (add safe apply hst, safe apply hsc) (rule_sets := [Pres])
     (config := { terminal := true, useDefaultSimpSet := false, useSimpAll := false, maxRuleApplications := 3000 })
-theorem stepM_pres (S : Spec I) (op : Op) : Pres I (stepM op) := by
-  have L := S.toLeaf
-  have h1 := stepOp_pres S
-  have h2 := stepTail_pres S
+theorem stepM_presR (S : SpecR I) (op : Op) : Pres I (stepM op) := by
+  have L := S.toLeafR
+  have h1 := stepOp_presR S.toSpecMR
+  have h2 := stepTail_presR S
   have h3 : Pres I (updK Kernel.beginStep) := updK_pres L.toLeafK _ KStep.beginStep
   unfold stepM
   aesop (add safe apply h1, safe apply h2, safe apply h3) (rule_sets := [Pres])
     (config := { terminal := true, useDefaultSimpSet := false, useSimpAll := false, maxRuleApplications := 3000 })
 
 /-- an invariant with a `Spec` holds along every run -/
-theorem run_pres (S : Spec I) (s : State) (ops : List Op) (h : I s) : I (run s ops) := by
+theorem run_presR (S : SpecR I) (s : State) (ops : List Op) (h : I s) : I (run s ops) := by
   induction ops generalizing s with
   | nil => exact h
-  | cons o os ih => exact ih _ (stepM_pres S o s h)
+  | cons o os ih => exact ih _ (stepM_presR S o s h)
+
+
+/-! ### from the full structures to the weak ones -/
+
+/-- `stop_controller_and_close_sockets`, for an invariant that survives `setClosed` -/
+theorem stopController_of (L : LeafR I) (hc : Pres I setClosed) : Pres I stopController := by
+  unfold stopController
+  aesop (add safe apply hc) (rule_sets := [Pres]) (config := { terminal := true, useDefaultSimpSet := false, useSimpAll := false, maxRuleApplications := 3000 })
+
+/-- `spawn_process`'s attempts, for an invariant that survives `spawnAdopt` for any watcher -/
+theorem spawnTry_of (L : LeafR I) (hsa : ∀ u w, Pres I (spawnAdopt u w))
+    (hnew : ∀ cbs, TopCb.release ∉ cbs → Pres I (newTop cbs))
+    (rec : Rec) (hrec : ∀ t, Pres I (rec t)) (wuid n : Nat) : Pres I (spawnTry rec wuid n) := by
+  induction n with
+  | zero => unfold spawnTry; pres
+  | succ n ih =>
+    unfold spawnTry
+    have hnew2 : ∀ pid, Pres I (newTop [TopCb.popProc wuid pid]) := fun pid => hnew _ (by simp)
+    aesop (add safe apply ih, safe apply hrec, safe apply hnew2, safe apply hsa) (rule_sets := [Pres]) (config := { terminal := true, useDefaultSimpSet := false, useSimpAll := false, maxRuleApplications := 3000 })
+
+theorem spawnProcess_of (L : LeafR I) (hsa : ∀ u w, Pres I (spawnAdopt u w))
+    (hnew : ∀ cbs, TopCb.release ∉ cbs → Pres I (newTop cbs))
+    (rec : Rec) (hrec : ∀ t, Pres I (rec t)) (wuid : Nat) : Pres I (spawnProcess rec wuid) := by
+  have h := spawnTry_of L hsa hnew rec hrec wuid
+  unfold spawnProcess; aesop (add safe apply h) (rule_sets := [Pres]) (config := { terminal := true, useDefaultSimpSet := false, useSimpAll := false, maxRuleApplications := 3000 })
+
+/-- `stopCore`, for an invariant that survives the status write on any watcher -/
+theorem stopCore_of (L : LeafW I) (hst : ∀ u, Pres I (setStatus u .stopped)) (u : Nat) : Pres I (stopCore u) := by
+  unfold stopCore; aesop (add safe apply hst) (rule_sets := [Pres]) (config := { terminal := true, useDefaultSimpSet := false, useSimpAll := false, maxRuleApplications := 3000 })
+
+theorem guardedStop_of (hst : ∀ u, Pres I (setStatus u .stopped)) (u : Nat) : Pres I (guardedStop u) := by
+  unfold guardedStop; aesop (add safe apply hst) (rule_sets := [Pres]) (config := { terminal := true, useDefaultSimpSet := false, useSimpAll := false, maxRuleApplications := 3000 })
+
+theorem Leaf.toLeafR (L : Leaf I) : LeafR I where
+  toLeafW := L.toLeafW
+  setStatus := fun u st _ => L.setStatus u st
+  trySetNp := L.trySetNp
+  setWOpt := L.setWOpt
+  freshId := L.freshId
+  pushFrame := L.pushFrame
+  removeFrame := L.removeFrame
+  setFrameK := L.setFrameK
+  armFrame := L.armFrame
+  pushSleeper := L.pushSleeper
+  armTop := L.armTop
+  setStopping := L.setStopping
+  setRestarting := L.setRestarting
+  setLoopStop := L.setLoopStop
+  setSocketEvent := L.setSocketEvent
+  setSockReady := L.setSockReady
+  clearDone := L.clearDone
+  unregister := L.unregister
+  registerNew := L.registerNew
+  fireSleeper := L.fireSleeper
+  enqueueResume := L.enqueueResume
+  enqueueCallback := L.enqueueCallback
+
+theorem SpecCore.toSpecCoreR (S : SpecCore I) : SpecCoreR I where
+  toLeafR := S.toLeaf.toLeafR
+  deliverTop := S.deliverTop
+  newTopNR := S.newTopNR
+  addDone := S.addDone
+  syncCo := S.syncCo
+  syncSetOpt := S.syncSetOpt
+  syncAdd := S.syncAdd
+  spawnProcess := spawnProcess_of S.toLeaf.toLeafR S.spawnAdopt S.newTopNR
+  stopCore := stopCore_of S.toLeafW (fun u => S.setStatus u .stopped)
+  guardedStop := guardedStop_of (fun u => S.setStatus u .stopped)
+
+theorem Spec.toSpecMR (S : Spec I) : SpecMR I where
+  toSpecCoreR := S.toSpecCore.toSpecCoreR
+  emitRep := S.emitRep
+
+theorem Spec.toSpecR (S : Spec I) : SpecR I where
+  toSpecMR := S.toSpecMR
+  settleStep := S.settleStep
+  stopController := stopController_of S.toLeaf.toLeafR S.setClosed
+
+/-! ### the same theorems for the full structures (old names) -/
+theorem newFrame_pres (L : Leaf I) (k : Kont) (p : Waiter) : Pres I (newFrame k p) :=
+  newFrame_presR L.toLeafR k p
+
+theorem addSleeper_pres (L : Leaf I) (ms : Nat) (w : Waiter) : Pres I (addSleeper ms w) :=
+  addSleeper_presR L.toLeafR ms w
+
+theorem sendReply_pres (L : Leaf I) (hrep : ∀ c i a b d, Pres I (emitRep c i a b d))
+    (cid : Option String) (id : JVal) (c : Bool) (a b d : String) :
+    Pres I (sendReply cid id c a b d) :=
+  sendReply_presR L.toLeafR hrep cid id c a b d
+
+theorem stopController_pres (L : Leaf I) : Pres I stopController :=
+  stopController_of L.toLeafR L.setClosed
+
+theorem multiCollect_pres (L : Leaf I) (rec : Rec) (hrec : ∀ t, Pres I (rec t)) (f sl : Nat) (v : Val) :
+    Pres I (multiCollect rec f sl v) :=
+  multiCollect_presR L.toLeafR rec hrec f sl v
+
+theorem deliver_pres (S : SpecCore I) (rec : Rec) (hrec : ∀ t, Pres I (rec t)) (w : Waiter) (v : Val) :
+    Pres I (deliver rec w v) :=
+  deliver_presR S.toSpecCoreR rec hrec w v
+
+theorem await_pres (S : SpecCore I) (rec : Rec) (hrec : ∀ t, Pres I (rec t)) (c : Call) (k : Kont) (p : Waiter) :
+    Pres I (await rec c k p) :=
+  await_presR S.toSpecCoreR rec hrec c k p
+
+theorem awaitSleep_pres (L : Leaf I) (ms : Nat) (k : Kont) (p : Waiter) : Pres I (awaitSleep ms k p) :=
+  awaitSleep_presR L.toLeafR ms k p
+
+theorem awaitMulti_pres (S : SpecCore I) (rec : Rec) (hrec : ∀ t, Pres I (rec t)) (cs : List Call) (k : Kont) (p : Waiter) :
+    Pres I (awaitMulti rec cs k p) :=
+  awaitMulti_presR S.toSpecCoreR rec hrec cs k p
+
+theorem popStrict_pres (L : Leaf I) (u p : Nat) : Pres I (popStrict u p) :=
+  popStrict_presR L.toLeafR u p
+
+theorem pubBefore_pres (L : Leaf I) (u : Nat) : Pres I (pubBefore u) :=
+  pubBefore_presR L.toLeafR u
+
+theorem spawnTry_pres (S : SpecCore I) (rec : Rec) (hrec : ∀ t, Pres I (rec t)) (wuid n : Nat) : Pres I (spawnTry rec wuid n) :=
+  spawnTry_of S.toLeaf.toLeafR S.spawnAdopt S.newTopNR rec hrec wuid n
+
+theorem killFinish_pres (S : SpecCore I) (rec : Rec) (hrec : ∀ t, Pres I (rec t)) (wuid pid : Nat) (esc : Bool) (wt : Waiter) : Pres I (killFinish rec wuid pid esc wt) :=
+  killFinish_presR S.toSpecCoreR rec hrec wuid pid esc wt
+
+theorem killLoop_pres (S : SpecCore I) (rec : Rec) (hrec : ∀ t, Pres I (rec t)) (wuid pid sig i polls : Nat) (wt : Waiter) : Pres I (killLoop rec wuid pid sig i polls wt) :=
+  killLoop_presR S.toSpecCoreR rec hrec wuid pid sig i polls wt
+
+theorem killProcess_pres (S : SpecCore I) (rec : Rec) (hrec : ∀ t, Pres I (rec t)) (wuid pid : Nat) (sig gt : Option Nat) (wt : Waiter) : Pres I (killProcess rec wuid pid sig gt wt) :=
+  killProcess_presR S.toSpecCoreR rec hrec wuid pid sig gt wt
+
+theorem killProcesses_pres (S : SpecCore I) (rec : Rec) (hrec : ∀ t, Pres I (rec t)) (wuid : Nat) (sig gt : Option Nat) (wt : Waiter) : Pres I (killProcesses rec wuid sig gt wt) :=
+  killProcesses_presR S.toSpecCoreR rec hrec wuid sig gt wt
+
+theorem stopW_pres (S : SpecCore I) (rec : Rec) (hrec : ∀ t, Pres I (rec t)) (wuid : Nat) (close : Bool) (wt : Waiter) : Pres I (stopW rec wuid close wt) :=
+  stopW_presR S.toSpecCoreR rec hrec wuid close wt
+
+theorem stopAfterKill_pres (S : SpecCore I) (rec : Rec) (hrec : ∀ t, Pres I (rec t)) (wuid : Nat) (close : Bool) (wt : Waiter) : Pres I (stopAfterKill rec wuid close wt) :=
+  stopAfterKill_presR S.toSpecCoreR rec hrec wuid close wt
+
+theorem spawnProcess_pres (S : SpecCore I) (rec : Rec) (hrec : ∀ t, Pres I (rec t)) (wuid : Nat) : Pres I (spawnProcess rec wuid) :=
+  spawnProcess_presR S.toSpecCoreR rec hrec wuid
+
+theorem pendingSocketEvent_pres (L : Leaf I) (u : Nat) : Pres I (pendingSocketEvent u) :=
+  pendingSocketEvent_presR L.toLeafR u
+
+theorem spawnLoop_pres (S : SpecCore I) (rec : Rec) (hrec : ∀ t, Pres I (rec t)) (wuid rem : Nat) (wt : Waiter) : Pres I (spawnLoop rec wuid rem wt) :=
+  spawnLoop_presR S.toSpecCoreR rec hrec wuid rem wt
+
+theorem spawnProcesses_pres (S : SpecCore I) (rec : Rec) (hrec : ∀ t, Pres I (rec t)) (wuid : Nat) (wt : Waiter) : Pres I (spawnProcesses rec wuid wt) :=
+  spawnProcesses_presR S.toSpecCoreR rec hrec wuid wt
+
+theorem popKilled_pres (S : SpecCore I) (rec : Rec) (hrec : ∀ t, Pres I (rec t)) (wuid : Nat) (tk : List Nat) (v : Val) (wt : Waiter) : Pres I (popKilled rec wuid tk v wt) :=
+  popKilled_presR S.toSpecCoreR rec hrec wuid tk v wt
+
+theorem manageTail_pres (S : SpecCore I) (rec : Rec) (hrec : ∀ t, Pres I (rec t)) (wuid : Nat) (wt : Waiter) : Pres I (manageTail rec wuid wt) :=
+  manageTail_presR S.toSpecCoreR rec hrec wuid wt
+
+theorem manageAfterExpire_pres (S : SpecCore I) (rec : Rec) (hrec : ∀ t, Pres I (rec t)) (wuid : Nat) (wt : Waiter) : Pres I (manageAfterExpire rec wuid wt) :=
+  manageAfterExpire_presR S.toSpecCoreR rec hrec wuid wt
+
+theorem removeExpired_pres (S : SpecCore I) (rec : Rec) (hrec : ∀ t, Pres I (rec t)) (wuid : Nat) (wt : Waiter) : Pres I (removeExpired rec wuid wt) :=
+  removeExpired_presR S.toSpecCoreR rec hrec wuid wt
+
+theorem manageProcesses_pres (S : SpecCore I) (rec : Rec) (hrec : ∀ t, Pres I (rec t)) (wuid : Nat) (wt : Waiter) : Pres I (manageProcesses rec wuid wt) :=
+  manageProcesses_presR S.toSpecCoreR rec hrec wuid wt
+
+theorem startW_pres (S : SpecCore I) (rec : Rec) (hrec : ∀ t, Pres I (rec t)) (wuid : Nat) (wt : Waiter) : Pres I (startW rec wuid wt) :=
+  startW_presR S.toSpecCoreR rec hrec wuid wt
+
+theorem startAfterSpawn_pres (S : SpecCore I) (rec : Rec) (hrec : ∀ t, Pres I (rec t)) (wuid : Nat) (wt : Waiter) : Pres I (startAfterSpawn rec wuid wt) :=
+  startAfterSpawn_presR S.toSpecCoreR rec hrec wuid wt
+
+theorem reloadW_pres (S : SpecCore I) (rec : Rec) (hrec : ∀ t, Pres I (rec t)) (wuid : Nat) (g sq : Bool) (wt : Waiter) : Pres I (reloadW rec wuid g sq wt) :=
+  reloadW_presR S.toSpecCoreR rec hrec wuid g sq wt
+
+theorem reloadSeqNext_pres (S : SpecCore I) (rec : Rec) (hrec : ∀ t, Pres I (rec t)) (wuid : Nat) (rest : List Nat) (wt : Waiter) : Pres I (reloadSeqNext rec wuid rest wt) :=
+  reloadSeqNext_presR S.toSpecCoreR rec hrec wuid rest wt
+
+theorem reloadSeqAfterKill_pres (S : SpecCore I) (rec : Rec) (hrec : ∀ t, Pres I (rec t)) (wuid pid : Nat) (rest : List Nat) (wt : Waiter) : Pres I (reloadSeqAfterKill rec wuid pid rest wt) :=
+  reloadSeqAfterKill_presR S.toSpecCoreR rec hrec wuid pid rest wt
+
+theorem setNumprocesses_pres (S : SpecCore I) (rec : Rec) (hrec : ∀ t, Pres I (rec t)) (wuid : Nat) (n : Int) (wt : Waiter) : Pres I (setNumprocesses rec wuid n wt) :=
+  setNumprocesses_presR S.toSpecCoreR rec hrec wuid n wt
+
+theorem doAction_pres (S : SpecCore I) (rec : Rec) (hrec : ∀ t, Pres I (rec t)) (wuid : Nat) (n : Int) (wt : Waiter) : Pres I (doAction rec wuid n wt) :=
+  doAction_presR S.toSpecCoreR rec hrec wuid n wt
+
+theorem pubInfo_pres (S : SpecCore I) (rec : Rec) (hrec : ∀ t, Pres I (rec t)) (wuid : Nat) (b : List Nat) (wt : Waiter) : Pres I (pubInfo rec wuid b wt) :=
+  pubInfo_presR S.toSpecCoreR rec hrec wuid b wt
+
+theorem arbStartNext_pres (S : SpecCore I) (rec : Rec) (hrec : ∀ t, Pres I (rec t)) (ws : List Nat) (wt : Waiter) : Pres I (arbStartNext rec ws wt) :=
+  arbStartNext_presR S.toSpecCoreR rec hrec ws wt
+
+theorem arbStartAfterStart_pres (S : SpecCore I) (rec : Rec) (hrec : ∀ t, Pres I (rec t)) (ws : List Nat) (wt : Waiter) : Pres I (arbStartAfterStart rec ws wt) :=
+  arbStartAfterStart_presR S.toSpecCoreR rec hrec ws wt
+
+theorem arbStopTail_pres (S : SpecCore I) (rec : Rec) (hrec : ∀ t, Pres I (rec t)) (wt : Waiter) : Pres I (arbStopTail rec wt) :=
+  arbStopTail_presR S.toSpecCoreR rec hrec wt
+
+theorem arbStop_pres (S : SpecCore I) (rec : Rec) (hrec : ∀ t, Pres I (rec t)) (wt : Waiter) : Pres I (arbStop rec wt) :=
+  arbStop_presR S.toSpecCoreR rec hrec wt
+
+theorem arbRestartInside_pres (S : SpecCore I) (rec : Rec) (hrec : ∀ t, Pres I (rec t)) (wt : Waiter) : Pres I (arbRestartInside rec wt) :=
+  arbRestartInside_presR S.toSpecCoreR rec hrec wt
+
+theorem arbReloadNext_pres (S : SpecCore I) (rec : Rec) (hrec : ∀ t, Pres I (rec t)) (ws : List Nat) (g sq : Bool) (wt : Waiter) : Pres I (arbReloadNext rec ws g sq wt) :=
+  arbReloadNext_presR S.toSpecCoreR rec hrec ws g sq wt
+
+theorem arbReloadAfter_pres (S : SpecCore I) (rec : Rec) (hrec : ∀ t, Pres I (rec t)) (ws : List Nat) (g sq : Bool) (wt : Waiter) : Pres I (arbReloadAfter rec ws g sq wt) :=
+  arbReloadAfter_presR S.toSpecCoreR rec hrec ws g sq wt
+
+theorem manageWatchers_pres (S : SpecCore I) (rec : Rec) (hrec : ∀ t, Pres I (rec t)) (wt : Waiter) : Pres I (manageWatchers rec wt) :=
+  manageWatchers_presR S.toSpecCoreR rec hrec wt
+
+theorem rmWatcher_pres (S : SpecCore I) (rec : Rec) (hrec : ∀ t, Pres I (rec t)) (uid : Nat) (ns : Bool) (wt : Waiter) : Pres I (rmWatcher rec uid ns wt) :=
+  rmWatcher_presR S.toSpecCoreR rec hrec uid ns wt
+
+theorem manageWatchersTail_pres (S : SpecCore I) (rec : Rec) (hrec : ∀ t, Pres I (rec t)) (need : Bool) (wt : Waiter) : Pres I (manageWatchersTail rec need wt) :=
+  manageWatchersTail_presR S.toSpecCoreR rec hrec need wt
+
+theorem runCall_pres (S : SpecCore I) (rec : Rec) (hrec : ∀ t, Pres I (rec t)) (c : Call) (wt : Waiter) : Pres I (runCall rec c wt) :=
+  runCall_presR S.toSpecCoreR rec hrec c wt
+
+theorem runResume_pres (S : SpecCore I) (rec : Rec) (hrec : ∀ t, Pres I (rec t)) (k : Kont) (v : Val) (wt : Waiter) : Pres I (runResume rec k v wt) :=
+  runResume_presR S.toSpecCoreR rec hrec k v wt
+
+theorem exec_pres (S : SpecCore I) (n : Nat) (t : Task) : Pres I (exec n t) :=
+  exec_presR S.toSpecCoreR n t
+
+theorem lookupWatcher_pres (L : Leaf I) (n : String) : Pres I (lookupWatcher n) :=
+  lookupWatcher_presR L.toLeafR n
+
+theorem getWatcherCmd_pres (L : Leaf I) (n : JVal) : Pres I (getWatcherCmd n) :=
+  getWatcherCmd_presR L.toLeafR n
+
+theorem matchWatchers_pres (L : Leaf I) (p : JVal) : Pres I (matchWatchers p) :=
+  matchWatchers_presR L.toLeafR p
+
+theorem sortUids_pres (L : Leaf I) (us : List Nat) (r : Bool) : Pres I (sortUids us r) :=
+  sortUids_presR L.toLeafR us r
+
+theorem plainCoroutine_pres (S : SpecCore I) (c : Call) : Pres I (plainCoroutine c []) :=
+  plainCoroutine_presR S.toSpecCoreR c
+
+theorem syncCoroutine_pres (S : SpecCore I) (name : String) (c : Call) : Pres I (syncCoroutine name c []) :=
+  syncCoroutine_presR S.toSpecCoreR name c
+
+theorem execSSR_pres (S : SpecCore I) (kind : String) (p : JVal) : Pres I (execSSR kind p) :=
+  execSSR_presR S.toSpecCoreR kind p
+
+theorem execIncrDecr_pres (S : SpecCore I) (sg : Int) (p : JVal) : Pres I (execIncrDecr sg p) :=
+  execIncrDecr_presR S.toSpecCoreR sg p
+
+theorem execReload_pres (S : SpecCore I) (p : JVal) : Pres I (execReload p) :=
+  execReload_presR S.toSpecCoreR p
+
+theorem execSet_pres (S : SpecCore I) (p : JVal) : Pres I (execSet p) :=
+  execSet_presR S.toSpecCoreR p
+
+theorem execKill_pres (S : SpecCore I) (p : JVal) : Pres I (execKill p) :=
+  execKill_presR S.toSpecCoreR p
+
+theorem execSignal_pres (S : SpecCore I) (p : JVal) : Pres I (execSignal p) :=
+  execSignal_presR S.toSpecCoreR p
+
+theorem execRm_pres (S : SpecCore I) (p : JVal) : Pres I (execRm p) :=
+  execRm_presR S.toSpecCoreR p
+
+theorem execAdd_pres (S : SpecCore I) (p : JVal) : Pres I (execAdd p) :=
+  execAdd_presR S.toSpecCoreR p
+
+theorem execReadOnly_pres (S : SpecCore I) (c : String) (p : JVal) : Pres I (execReadOnly c p) :=
+  execReadOnly_presR S.toSpecCoreR c p
+
+theorem validateExecute_pres (S : SpecCore I) (c : String) (p : JVal) : Pres I (validateExecute c p) :=
+  validateExecute_presR S.toSpecCoreR c p
+
+theorem handleMessage_pres (S : Spec I) (cid : Option String) (msg : Option JVal) : Pres I (handleMessage cid msg) :=
+  handleMessage_presR S.toSpecMR cid msg
+
+theorem sigQuit_pres (S : Spec I) : Pres I sigQuit :=
+  sigQuit_presR S.toSpecMR
+
+theorem settle_pres (S : Spec I) (n : Nat) : Pres I (settle n) :=
+  settle_presR S.toSpecR n
+
+theorem stepOp_pres (S : Spec I) (op : Op) : Pres I (stepOp op) :=
+  stepOp_presR S.toSpecMR op
+
+theorem stepTail_pres (S : Spec I) : Pres I stepTail :=
+  stepTail_presR S.toSpecR
+
+theorem stepM_pres (S : Spec I) (op : Op) : Pres I (stepM op) :=
+  stepM_presR S.toSpecR op
+
+theorem run_pres (S : Spec I) (s : State) (ops : List Op) (h : I s) : I (run s ops) :=
+  run_presR S.toSpecR s ops h
 
 end
 end Circus.Core
